@@ -41,6 +41,8 @@ type Ref struct {
 }
 
 type Scenario struct {
+	EmptyBody int // 0: ordinary body; 1: nothing added to the File; 2: only items that render nothing (the blank-import-only file)
+
 	Ctor      string     `json:"ctor"`
 	LocalPath string     `json:"local_path,omitempty"`
 	PkgName   string     `json:"pkg_name"`
@@ -154,7 +156,7 @@ func Generate(r *rand.Rand, k Knobs) *Scenario {
 				if i := strings.LastIndex(strings.TrimSuffix(p, "/"), "/"); i >= 0 {
 					last = strings.TrimSuffix(p, "/")[i+1:]
 				}
-				if token.IsIdentifier(last) {
+				if token.IsIdentifier(last) && last != "_" {
 					pi.TrueName = last
 				} else {
 					pi.TrueName = fmt.Sprintf("real%d", len(s.Paths))
@@ -177,6 +179,14 @@ func Generate(r *rand.Rand, k Knobs) *Scenario {
 			addPath("C", false)
 		default:
 			base := bases[r.Intn(len(bases))]
+			if r.Intn(10) == 0 {
+				// a last element composed of 1-4 pieces of different character classes, in any order
+				pieces := []string{"-", ".", "_", "1", "9", "q", "x", "Z", "é", "日", "٣", "~", "@", "+", "v2"}
+				base = ""
+				for j := 1 + r.Intn(4); j > 0; j-- {
+					base += pieces[r.Intn(len(pieces))]
+				}
+			}
 			if lastBase != "" && pct(k.CollideBias) {
 				base = lastBase
 				if r.Intn(4) == 0 {
@@ -333,6 +343,11 @@ func Generate(r *rand.Rand, k Knobs) *Scenario {
 		}
 	}
 	r.Shuffle(len(s.Refs), func(i, j int) { s.Refs[i], s.Refs[j] = s.Refs[j], s.Refs[i] })
+	if r.Intn(14) == 0 {
+		// the blank-import-only file (tools.go, a cgo stub): hints, anonymous imports and preambles, but no code
+		s.EmptyBody = 1 + r.Intn(2)
+		s.Refs = nil
+	}
 	return s
 }
 
@@ -380,6 +395,9 @@ func (s *Scenario) AnonSet() map[string]bool {
 func (s *Scenario) String() string {
 	var b strings.Builder
 	fmt.Fprintf(&b, "%s(%q,%q) prefix=%q noformat=%v canonical=%q", s.Ctor, s.LocalPath, s.PkgName, s.Prefix, s.NoFormat, s.Canonical)
+	if s.EmptyBody > 0 {
+		fmt.Fprintf(&b, " emptybody=%d", s.EmptyBody)
+	}
 	for _, h := range s.Hints {
 		if h.Op == "ImportNames" {
 			fmt.Fprintf(&b, " ImportNames(%v)", h.Names)
@@ -510,6 +528,15 @@ func (s *Scenario) RefCode(n int, rf Ref) jen.Code {
 // Build constructs a fresh File with its body.
 func (s *Scenario) Build() *jen.File {
 	f := s.NewFile()
+	switch s.EmptyBody {
+	case 1:
+		return f
+	case 2:
+		f.Add(jen.Null())
+		f.Add(nil, jen.Tag(nil), jen.Add(), jen.Do(func(*jen.Statement) {}))
+		f.Null()
+		return f
+	}
 	f.Type().Id("V_Gen").Types(jen.Id("T").Any()).Struct()
 	if s.LocalPath != "" {
 		f.Var().Id(localSym).Op("=").Lit(1)
